@@ -98,9 +98,9 @@ Section DU.
           -- apply same_files_rows. exact Efiles.
           -- intros x o0 _. apply same_files_cell. exact Efiles.
           -- intros d Hd. apply S4 in Hd.
-             assert (Hgo : forall u c, In u upd -> find_frag (f_id u) (m_frags m1) = Some c -> incl (dels_of c) (dels_of u)).
+             assert (Hgo : forall u c, In u upd -> ~ In (f_id u) removed -> find_frag (f_id u) (m_frags m1) = Some c -> incl (dels_of c) (dels_of u)).
              { destruct Ho as [Ho | [a0 [b0 [c0 [d0 [e0 Ho]]]]]]; subst o; exact Hg. }
-             apply (Hgo r f1 R2); [rewrite Hidr; exact F1 | exact Hd].
+             apply (Hgo r f1 R2); [rewrite Hidr, <- Hid1; exact Hnr | rewrite Hidr; exact F1 | exact Hd].
         * intros Eb'. rewrite detomb_del. destruct R2 as [R2 | [R2 _]].
           -- subst r. apply F3. destruct b; [specialize (Hmono eq_refl); congruence | reflexivity].
           -- exact (Hdel Eb' r R2 Hidr).
@@ -135,5 +135,111 @@ Section DU.
         * apply (same_core_trans rb rb1 rb'); [repeat split; assumption | exact C2].
         * intros x Hx. apply S1. apply S2. exact Hx.
       + subst o. cbn [check_delete_update] in Hc1. inversion Hc1.
+  Qed.
+
+
+  (* ---------------------------------------------------------------- finish_delete_update *)
+  Lemma assocN_In {A} : forall k (l : list (N * A)) v, assocN k l = Some v -> In (k, v) l.
+  Proof.
+    intros k l v. induction l as [|[a b] r IH]; cbn [assocN]; [discriminate|].
+    destruct (N.eqb a k) eqn:E; [apply N.eqb_eq in E; intros H; inversion H; subst; left; reflexivity | intros H; right; exact (IH H)].
+  Qed.
+
+  Lemma existing_dels_spec : forall cur to_rw ex, NoDup (ids_of cur) -> existing_dels cur to_rw = Some ex ->
+    forall f, assocN f ex =
+      (if memN f to_rw then match find_frag f cur with Some fc => option_map snd (f_del fc) | None => None end else None)
+      /\ (memN f to_rw = true -> forall fc, find_frag f cur = Some fc -> f_del fc <> None).
+  Proof.
+    induction cur as [|c r IH]; intros to_rw ex Hnd H f; cbn [existing_dels] in H.
+    - inversion H; subst. cbn. destruct (memN f to_rw); split; auto; intros _ fc Q; discriminate.
+    - cbn [ids_of map] in Hnd. inversion Hnd as [|? ? Hn Hr]; subst.
+      unfold find_frag. cbn [find]. fold (find_frag f r).
+      destruct (memN (f_id c) to_rw) eqn:Ec.
+      + destruct (f_del c) as [d|] eqn:Ed; [|discriminate]. destruct (existing_dels r to_rw) as [rest|] eqn:Er; [|discriminate].
+        inversion H; subst. destruct (IH to_rw rest Hr Er f) as [A B]. cbn [assocN].
+        destruct (N.eqb (f_id c) f) eqn:E.
+        * apply N.eqb_eq in E. subst f. rewrite Ec. split; [rewrite Ed; reflexivity | intros _ fc Q; inversion Q; subst; congruence].
+        * split; [exact A | exact B].
+      + destruct (IH to_rw ex Hr H f) as [A B]. destruct (N.eqb (f_id c) f) eqn:E.
+        * apply N.eqb_eq in E. subst f. rewrite Ec. split; [|intros Q; discriminate].
+          rewrite A, Ec. reflexivity.
+        * split; [exact A | exact B].
+  Qed.
+
+  Lemma rewrite_dvs_spec : forall init ex aff to_rw nd gone2 files, NoDup to_rw ->
+    rewrite_dvs frows init ex aff to_rw nd = Some (gone2, files) ->
+    (forall f, In f to_rw -> exists dv, merged_dv ex aff f = Some dv /\
+        (if (match init_get f init with Some (fr, _) => N.eqb (cardN dv) (frag_rows fr) | None => false end)
+         then In f gone2 /\ assocN f files = None else ~ In f gone2 /\ assocN f files = Some (nd, dv)))
+    /\ (forall f, ~ In f to_rw -> ~ In f gone2 /\ assocN f files = None).
+  Proof.
+    intros init ex aff. induction to_rw as [|t r IH]; intros nd gone2 files Hnd H; cbn [rewrite_dvs] in H.
+    - inversion H; subst. split; [intros f []|]. intros f _. split; [intros [] | reflexivity].
+    - inversion Hnd as [|? ? Hn Hr]; subst.
+      destruct (merged_dv ex aff t) as [dv|] eqn:Em; [|discriminate].
+      destruct (rewrite_dvs frows init ex aff r nd) as [[g0 f0]|] eqn:Er; [|discriminate].
+      destruct (IH nd g0 f0 Hr Er) as [A B].
+      set (whole := match init_get t init with Some (fr, _) => N.eqb (cardN dv) (frag_rows fr) | None => false end) in *.
+      destruct (B t Hn) as [Bt1 Bt2].
+      destruct whole eqn:Ew; inversion H; subst; clear H; (split; [intros f [Hf | Hf] | intros f Hf]).
+      + subst f. exists dv. split; [exact Em|]. fold whole. rewrite Ew. split; [left; reflexivity | exact Bt2].
+      + destruct (A f Hf) as [dv' [E1 E2]]. exists dv'. split; [exact E1|].
+        destruct (match init_get f init with Some (fr, _) => N.eqb (cardN dv') (frag_rows fr) | None => false end).
+        * destruct E2 as [E2 E3]. split; [right; exact E2 | exact E3].
+        * destruct E2 as [E2 E3]. split; [|exact E3]. intros [Q | Q]; [subst; exact (Hn Hf) | exact (E2 Q)].
+      + destruct (B f (fun Q => Hf (or_intror Q))) as [B1 B2]. split; [|exact B2].
+        intros [Q | Q]; [subst; apply Hf; left; reflexivity | exact (B1 Q)].
+      + subst f. exists dv. split; [exact Em|]. fold whole. rewrite Ew. split; [exact Bt1|]. cbn [assocN]. rewrite N.eqb_refl. reflexivity.
+      + destruct (A f Hf) as [dv' [E1 E2]]. exists dv'. split; [exact E1|].
+        assert (Hne : N.eqb t f = false) by (apply N.eqb_neq; intro Q; subst; exact (Hn Hf)).
+        cbn [assocN]. rewrite Hne. exact E2.
+      + destruct (B f (fun Q => Hf (or_intror Q))) as [B1 B2]. split; [exact B1|]. cbn [assocN].
+        assert (Hne : N.eqb t f = false) by (apply N.eqb_neq; intro Q; subst; apply Hf; left; reflexivity). rewrite Hne. exact B2.
+  Qed.
+
+
+  (* ---------------------------------------------------------------- the deletions a writer computes at its read version *)
+  Lemma nodupN_nil : forall l, nodupN l = [] -> l = [].
+  Proof.
+    intros [|x r] H; [reflexivity|]. exfalso. assert (Hin : In x (nodupN (x :: r))) by (apply nodupN_In; left; reflexivity).
+    rewrite H in Hin. destruct Hin.
+  Qed.
+  Lemma del_in_frag_upd : forall rows nd fi u, del_in_frag frows rows nd fi = Some (Some u) ->
+    u = set_del fi (Some (nd, unionN (dels_of fi) (nodupN (rows_of rows (f_id fi)))))
+    /\ nodupN (rows_of rows (f_id fi)) <> []
+    /\ cardN (unionN (dels_of fi) (nodupN (rows_of rows (f_id fi)))) <> frag_rows fi.
+  Proof.
+    intros rows nd fi u H. unfold del_in_frag in H. destruct (nodupN (rows_of rows (f_id fi))) as [|a r] eqn:E; [discriminate|].
+    destruct (N.eqb (cardN (unionN (dels_of fi) (a :: r))) (frag_rows fi)) eqn:Ec; [discriminate|].
+    inversion H; subst. split; [reflexivity | split; [discriminate | apply N.eqb_neq; exact Ec]].
+  Qed.
+  Lemma del_in_frag_gone : forall rows nd fi, del_in_frag frows rows nd fi = Some None ->
+    nodupN (rows_of rows (f_id fi)) <> []
+    /\ cardN (unionN (dels_of fi) (nodupN (rows_of rows (f_id fi)))) = frag_rows fi.
+  Proof.
+    intros rows nd fi H. unfold del_in_frag in H. destruct (nodupN (rows_of rows (f_id fi))) as [|a r] eqn:E; [discriminate|].
+    destruct (N.eqb (cardN (unionN (dels_of fi) (a :: r))) (frag_rows fi)) eqn:Ec; [|discriminate].
+    split; [discriminate | apply N.eqb_eq; exact Ec].
+  Qed.
+  Lemma del_in_frag_none : forall rows nd fi, del_in_frag frows rows nd fi = None -> forall o, ~ In (f_id fi, o) rows.
+  Proof.
+    intros rows nd fi H o Hin. unfold del_in_frag in H. destruct (nodupN (rows_of rows (f_id fi))) as [|a r] eqn:E.
+    - apply nodupN_nil in E. apply rows_of_In in Hin. rewrite E in Hin. destruct Hin.
+    - destruct (N.eqb _ _); discriminate.
+  Qed.
+
+  Lemma mk_deletions_spec : forall frs rows nd upd gone, mk_deletions frows frs rows nd = (upd, gone) ->
+    (forall u, In u upd <-> exists fi, In fi frs /\ del_in_frag frows rows nd fi = Some (Some u))
+    /\ (forall i, In i gone <-> exists fi, In fi frs /\ f_id fi = i /\ del_in_frag frows rows nd fi = Some None).
+  Proof.
+    intros frs rows nd upd gone H. unfold mk_deletions in H. inversion H; subst; clear H. split.
+    - intros u. rewrite in_flat_map. split.
+      + intros [fi [Hfi Hu]]. exists fi. split; [exact Hfi|]. destruct (del_in_frag frows rows nd fi) as [[u'|]|]; try destruct Hu.
+        * subst. reflexivity. * destruct H.
+      + intros [fi [Hfi E]]. exists fi. split; [exact Hfi|]. rewrite E. left. reflexivity.
+    - intros i. rewrite in_flat_map. split.
+      + intros [fi [Hfi Hu]]. exists fi. split; [exact Hfi|]. destruct (del_in_frag frows rows nd fi) as [[u'|]|]; try destruct Hu.
+        * subst. auto. * destruct H.
+      + intros [fi [Hfi [Ei E]]]. exists fi. split; [exact Hfi|]. rewrite E. left. exact Ei.
   Qed.
 End DU.
